@@ -712,16 +712,18 @@ theorem cinv_step_offline (c : Cluster) (b p : PeerName) (now : Int) (hc : CInv 
     exact cinv_setBroker c _ hc (binv_offline br p now (binv_of_broker? c hc b br hb)
       (flags_nil_of_clock _ (offline_flags br p now) hf))
 
-theorem binv_mergeStep (rev : Bool) (b : Broker) (m : Map) (hb : BInv b) (hm : NoDup m)
+theorem binv_mergeStep (rev : WalkOrder) (b : Broker) (m : Map) (hb : BInv b) (hm : NoDup m)
     (hf : ∀ f ∈ (mergeStep rev b m).flags, f = clockFlag) : BInv (mergeStep rev b m).broker := by
   unfold mergeStep at hf ⊢
   apply binv_mergeOrd _ b m hb hm
   · cases rev
     · exact List.Perm.refl _
     · exact List.reverse_perm _
+    · exact List.filter_append_perm _ _
+    · exact List.Perm.trans List.perm_append_comm (List.filter_append_perm _ _)
   · exact flags_nil_of_clock _ (mergeStepOrd_flags _ b m) hf
 
-theorem mergeStep_delta_nodup (rev : Bool) (b : Broker) (m : Map) (hm : NoDup m) (d : Map)
+theorem mergeStep_delta_nodup (rev : WalkOrder) (b : Broker) (m : Map) (hm : NoDup m) (d : Map)
     (h : (mergeStep rev b m).delta = some d) : NoDup d := by
   unfold mergeStep at h
   rw [(mergeOrd_state _ b m).2.2.2] at h
@@ -730,7 +732,7 @@ theorem mergeStep_delta_nodup (rev : Bool) (b : Broker) (m : Map) (hm : NoDup m)
   · cases h; exact delta_nodup b.state m hm
 
 theorem cinv_deliver_gossip (c : Cluster) (hc : CInv c) (br : Broker) (hbr : BInv br) (m : Map) (hm : NoDup m)
-    (rev : Bool) (b : PeerName) (to : List PeerName)
+    (rev : WalkOrder) (b : PeerName) (to : List PeerName)
     (hf : ∀ f ∈ (mergeStep rev br m).flags, f = clockFlag) :
     CInv (match (mergeStep rev br m).delta with
       | some d => (c.setBroker (mergeStep rev br m).broker).sendFrom b (.data d) to
@@ -744,7 +746,7 @@ theorem cinv_deliver_gossip (c : Cluster) (hc : CInv c) (br : Broker) (hbr : BIn
   · exact h1
 
 theorem cinv_deliver_bcast (c : Cluster) (hc : CInv c) (br : Broker) (hbr : BInv br) (m : Map) (hm : NoDup m)
-    (rev : Bool) (b src : PeerName) (to : List PeerName)
+    (rev : WalkOrder) (b src : PeerName) (to : List PeerName)
     (hf : ∀ f ∈ (mergeStep rev br m).flags, f = clockFlag) :
     CInv (match (mergeStep rev br m).delta with
       | some d => (c.setBroker (mergeStep rev br m).broker).broadcastFrom b src d to
@@ -755,7 +757,7 @@ theorem cinv_deliver_bcast (c : Cluster) (hc : CInv c) (br : Broker) (hbr : BInv
     exact cinv_broadcastFrom _ b src d to h1 (mergeStep_delta_nodup rev br m hm _ hd)
   · exact h1
 
-theorem cinv_step_deliver (c : Cluster) (a b : PeerName) (relay : List PeerName) (keep rev : Bool) (hc : CInv c)
+theorem cinv_step_deliver (c : Cluster) (a b : PeerName) (relay : List PeerName) (keep : Bool) (rev : WalkOrder) (hc : CInv c)
     (hf : ∀ f ∈ (c.step (.deliver a b relay keep rev)).2.flags, f = clockFlag) :
     CInv (c.step (.deliver a b relay keep rev)).1 := by
   have hl := linkInv_link c hc a b
